@@ -21,6 +21,7 @@ from adaptive.utils import (
     assign_defaults,
     cache_latest,
     partial_function_from_dataframe,
+    restore,
 )
 
 try:
@@ -783,8 +784,12 @@ class Learner2D(BaseLearner):
     def ask(
         self, n: int, tell_pending: bool = True
     ) -> tuple[list[tuple[float, float] | np.ndarray], list[float]]:
-        # Even if tell_pending is False we add the point such that _fill_stack
-        # will return new points, later we remove these points if needed.
+        if not tell_pending:
+            # Compute the points as if they were requested, then roll the
+            # complete state back (stack, pending points, interpolators).
+            with restore(self):
+                return self.ask(n, tell_pending=True)
+
         points = list(self._stack.keys())
         loss_improvements = list(self._stack.values())
         n_left = n - len(points)
@@ -804,11 +809,6 @@ class Learner2D(BaseLearner):
 
             points += new_points
             loss_improvements += new_loss_improvements
-
-        if not tell_pending:
-            self._stack = OrderedDict(zip(points[: self.stack_size], loss_improvements))
-            for point in points[:n]:
-                self.pending_points.discard(point)
 
         return points[:n], loss_improvements[:n]
 
